@@ -168,7 +168,8 @@ def judge(case):
     if rel("second moments as a rank-2 tensor", s0, s1, [(D, 0), (D, 1), (QT, 2), (QT, 3)], nat=(ext ** 2)[:, :, None, None] * np.ones((3, 3))):
         return v
     # two-index invariant operators
-    for name in ("overlap_integral", "kinetic_energy_integral", "point_charge_integral", "nuclear_electron_attraction_integral"):
+    for name in ("overlap_integral", "overlap_integral[tol_screen]", "kinetic_energy_integral", "point_charge_integral",
+                 "nuclear_electron_attraction_integral"):
         q = B[name]
         base = lib(q, b1, env2)
         if rel(name, lib(q, b0, env), base, [(D, 0), (D, 1)], nat=sc.nat(q, base), tol=q.tol):
